@@ -123,6 +123,17 @@ def rename_closure_vars(path, opaque=False):
                         n.names = [new if x == name else x for x in n.names]
                     elif isinstance(n, ast.arg):
                         pass
+            # a class statement's header (bases, keywords, decorators) is evaluated in the enclosing function's scope
+            for c in ast.walk(S.node):
+                if isinstance(c, ast.ClassDef):
+                    par = m.parents.get(c)
+                    while par is not None and not isinstance(par, (ast.FunctionDef, ast.AsyncFunctionDef, ast.Lambda, ast.ClassDef)):
+                        par = m.parents.get(par)
+                    if par is S.node:
+                        for hdr in c.bases + [k.value for k in c.keywords] + c.decorator_list:
+                            for n in ast.walk(hdr):
+                                if isinstance(n, ast.Name) and n.id == name:
+                                    n.id = new
             # keyword arguments / attribute names are untouched (they are not Names)
     return ast.unparse(m.tree)
 
@@ -164,6 +175,14 @@ def cellify(path):
                 todo.append((S, name, users))
     for S, name, users in todo:
         inits = set()
+        pre = None
+        for n in S.direct_nodes():
+            if isinstance(n, (ast.Assign, ast.AnnAssign)) and pre is None:
+                tg0 = n.targets[0] if isinstance(n, ast.Assign) else n.target
+                if isinstance(tg0, ast.Name) and tg0.id == name and n.value is not None:
+                    pre = n
+        if pre is None or pre not in S.node.body:
+            continue        # the allocation must dominate every use: only a top-level statement of the owner qualifies
         for g in [S] + users:
             for n in list(g.direct_nodes()):
                 if isinstance(n, ast.Name) and n.id == name:
@@ -187,6 +206,8 @@ def cellify(path):
                 tg = n.targets[0] if isinstance(n, ast.Assign) else n.target
                 if isinstance(tg, ast.Name) and tg.id == name and n.value is not None:
                     first = n
+        if first is not None and first not in S.node.body:
+            first = None        # the allocation must dominate every use: only a top-level statement of the owner qualifies
         if first is None:
             for g in [S] + users:
                 for n in g.direct_nodes():
